@@ -166,6 +166,117 @@ example : closest (.collection [.lineString [⟨0, 0⟩, ⟨0, 0⟩], .multiPoin
 example : closest (.polygon ⟨[⟨0, 0⟩, ⟨4, 0⟩, ⟨4, 4⟩, ⟨0, 4⟩, ⟨0, 0⟩], []⟩) ⟨6, 2⟩ = .single ⟨4, 2⟩ := by
   decide +kernel
 
+mutual
+/-- no areal member at any depth -/
+def isLinear : Geom → Bool
+  | .point _ => true
+  | .line _ _ => true
+  | .lineString _ => true
+  | .multiPoint _ => true
+  | .multiLineString _ => true
+  | .collection gs => isLinearList gs
+  | _ => false
+def isLinearList : List Geom → Bool
+  | [] => true
+  | g :: gs => isLinear g && isLinearList gs
+end
+
+/-! ### `hits` against the kernel `Intersects<Point>` of each type -/
+
+mutual
+/-- geo's `Intersects<Point>` per type (`LineString`: any segment; areal types: the kernel test the
+`closest_point` impl itself calls) -/
+def isx : Geom → Pt → Bool
+  | .point q, p => q == p
+  | .line a b, p => lineCoord a b p
+  | .lineString cs, p => (segs cs).any (fun s => lineCoord s.1 s.2 p)
+  | .polygon poly, p => coordPos (.polygon poly) p != .outside
+  | .multiPoint qs, p => qs.any (· == p)
+  | .multiLineString ls, p => ls.any (fun cs => (segs cs).any (fun s => lineCoord s.1 s.2 p))
+  | .multiPolygon ps, p => ps.any (fun poly => coordPos (.polygon poly) p != .outside)
+  | .rect mn mx, p => rectCoord mn mx p
+  | .triangle a b c, p => triCoord a b c p
+  | .collection gs, p => isxList gs p
+def isxList : List Geom → Pt → Bool
+  | [], _ => false
+  | g :: gs, p => isx g p || isxList gs p
+end
+
+private theorem any_congr' {α : Type} (f g : α → Bool) :
+    ∀ l : List α, (∀ x ∈ l, f x = g x) → l.any f = l.any g
+  | [], _ => rfl
+  | a :: l, h => by
+    simp only [List.any_cons]
+    rw [h a List.mem_cons_self, any_congr' f g l (fun x hx => h x (List.mem_cons_of_mem _ hx))]
+
+private theorem onSegsNZ_eq_any (ss : List (Pt × Pt)) (p : Pt) (h : ∀ s ∈ ss, s.1 ≠ s.2) :
+    onSegsNZ ss p = ss.any (fun s => lineCoord s.1 s.2 p) := by
+  unfold onSegsNZ
+  apply any_congr'
+  intro s hs
+  simp [h s hs]
+
+mutual
+/-- [T] `hits_eq_intersects_linear`: for geometries made of points and linework without
+zero-length segments, the condition under which `closest_point` answers `Intersection` *is* geo's
+`intersects(p)`; with `closest_intersection_iff`: `Intersection` ⇔ `g.intersects(p)`. (A zero-length
+`Line` answers `Indeterminate` even for `p` on it — the "zero-length input" exception of the
+property; for areal types the impl asks `intersects(p)` itself before anything else.) -/
+theorem hits_eq_intersects_linear (p : Pt) :
+    ∀ g : Geom, isLinear g = true → (∀ s ∈ segSet g, s.1 ≠ s.2) → hits g p = isx g p
+  | .point _, _, _ => rfl
+  | .line a b, _, h => by
+    have : a ≠ b := h (a, b) (by simp [segSet])
+    simp [hits, isx, this]
+  | .lineString cs, _, h => by
+    simp only [hits, isx]; exact onSegsNZ_eq_any _ p h
+  | .multiPoint _, _, _ => rfl
+  | .multiLineString ls, _, h => by
+    simp only [hits, isx]
+    apply any_congr'
+    intro cs hcs
+    exact onSegsNZ_eq_any _ p (fun s hs => h s (by simp only [segSet, List.mem_flatMap]; exact ⟨cs, hcs, hs⟩))
+  | .collection gs, hl, h => by
+    simp only [hits, isx]
+    exact hitsList_eq_isxList p gs (by simpa [isLinear] using hl) (by simpa [segSet] using h)
+  | .polygon _, hl, _ => by simp [isLinear] at hl
+  | .multiPolygon _, hl, _ => by simp [isLinear] at hl
+  | .rect _ _, hl, _ => by simp [isLinear] at hl
+  | .triangle _ _ _, hl, _ => by simp [isLinear] at hl
+theorem hitsList_eq_isxList (p : Pt) :
+    ∀ gs : List Geom, isLinearList gs = true → (∀ s ∈ segSetList gs, s.1 ≠ s.2) →
+      hitsList gs p = isxList gs p
+  | [], _, _ => rfl
+  | g :: gs, hl, h => by
+    simp only [isLinearList, Bool.and_eq_true] at hl
+    simp only [hitsList, isxList]
+    rw [hits_eq_intersects_linear p g hl.1 (fun s hs => h s (by simp [segSetList, hs])),
+      hitsList_eq_isxList p gs hl.2 (fun s hs => h s (by simp [segSetList, hs]))]
+end
+
+/-- [T] for the areal types the first thing the impl does is ask the type's own `intersects(p)`:
+whenever that holds the answer is `Intersection(p)`. -/
+theorem closest_areal_intersects (g : Geom) (p : Pt) (hg : isLinear g = false)
+    (hc : ∀ gs, g ≠ .collection gs) (h : isx g p = true) : closest g p = .intersection p := by
+  cases g with
+  | polygon poly => simp only [isx] at h; simp [closest, polyClosest, h]
+  | multiPolygon ps =>
+    simp only [isx, List.any_eq_true] at h
+    obtain ⟨poly, hp, hh⟩ := h
+    have hhit : hits (.multiPolygon ps) p = true := by
+      simp only [hits, List.any_eq_true]
+      exact ⟨poly, hp, by simp [polyHits, hh]⟩
+    obtain ⟨x, hx⟩ := (closest_intersection_iff _ p).2 hhit
+    rw [hx, closest_intersection_eq _ p x hx]
+  | rect mn mx => simp only [isx] at h; simp [closest, rectClosest, h]
+  | triangle a b c => simp only [isx] at h; simp [closest, triClosest, h]
+  | collection gs => exact absurd rfl (hc gs)
+  | point _ => simp [isLinear] at hg
+  | line _ _ => simp [isLinear] at hg
+  | lineString _ => simp [isLinear] at hg
+  | multiPoint _ => simp [isLinear] at hg
+  | multiLineString _ => simp [isLinear] at hg
+
 /-! ## interior_point -/
 
 /-! ### T1 the polygon scan: the verified branch -/
@@ -215,6 +326,16 @@ theorem interior_width_inside (loc : Pt → Pos) (poly : Poly) (x : Pt) (w : Rat
     · exact hi
     · simp [hi] at hw'; exact absurd hw' hw
   · exact absurd h0 hw
+
+/-- [T] `interior_polygon_on_geometry`: the polygon answer is never a point that failed the
+location test, unless it is one of the polygon's own coordinates (one-point exterior / vertex
+fallback). -/
+theorem interior_polygon_on_geometry (loc : Pt → Pos) (poly : Poly) (x : Pt) (w : Rat)
+    (h : polyScan loc poly = some (x, w)) : loc x ≠ .outside ∨ x ∈ poly.coords := by
+  rcases interior_verified_branch loc poly x w h with ⟨he, _⟩ | ⟨_, _, _, _, _, hl, _⟩ | ⟨_, _, _, hh, _, _⟩
+  · right; simp [Poly.coords, he]
+  · left; exact hl
+  · right; exact List.mem_of_mem_head? hh
 
 /- Full statement (not provable about the model alone; it is a fact about valid polygons):
      ∀ valid poly, ∃ x w, polyScan (locate (.polygon poly)) poly = some (x, w) ∧ locate (.polygon poly) x = .inside
@@ -318,21 +439,6 @@ example : interior (fun _ _ => 1) (fun _ _ => .outside)
   rw [interior_none_iff]; rfl
 
 /-! ### T1 linear and point types: the result is a vertex of the geometry -/
-
-mutual
-/-- no areal member at any depth -/
-def isLinear : Geom → Bool
-  | .point _ => true
-  | .line _ _ => true
-  | .lineString _ => true
-  | .multiPoint _ => true
-  | .multiLineString _ => true
-  | .collection gs => isLinearList gs
-  | _ => false
-def isLinearList : List Geom → Bool
-  | [] => true
-  | g :: gs => isLinear g && isLinearList gs
-end
 
 theorem lsInterior_mem (len : Pt → Pt → Rat) (cs : List Pt) (x : Pt) (h : lsInterior len cs = some x) :
     x ∈ cs := by
